@@ -70,22 +70,22 @@ func (p *Path) binop(fr *frame, instr ssa.Instruction, op token.Token, t types.T
 		case SFP:
 			switch op {
 			case token.ADD:
-				if p.cfg.FPAbstract["add"] && !(xv.isConst && yv.isConst) {
+				if p.fpAbs(fr, "add") && !(xv.isConst && yv.isConst) {
 					return p.newFPInput("fpabs.add")
 				}
 				return ts.FPBin("fp.add", xv, yv)
 			case token.SUB:
-				if p.cfg.FPAbstract["sub"] && !(xv.isConst && yv.isConst) {
+				if p.fpAbs(fr, "sub") && !(xv.isConst && yv.isConst) {
 					return p.newFPInput("fpabs.sub")
 				}
 				return ts.FPBin("fp.sub", xv, yv)
 			case token.MUL:
-				if p.cfg.FPAbstract["mul"] && !(xv.isConst && yv.isConst) {
+				if p.fpAbs(fr, "mul") && !(xv.isConst && yv.isConst) {
 					return p.newFPInput("fpabs.mul")
 				}
 				return ts.FPBin("fp.mul", xv, yv)
 			case token.QUO:
-				if p.cfg.FPAbstract["div"] && !(xv.isConst && yv.isConst) {
+				if p.fpAbs(fr, "div") && !(xv.isConst && yv.isConst) {
 					return p.newFPInput("fpabs.div")
 				}
 				return ts.FPBin("fp.div", xv, yv)
@@ -843,4 +843,20 @@ func (p *Path) callBuiltin(caller *frame, callpos token.Pos, fn *ssa.Builtin, ar
 		panic(targetPanic{msg: "runtime error: invalid memory address or nil pointer dereference (wrapnilchk)"})
 	}
 	panic(engineError(fmt.Sprintf("builtin %s on %T unsupported", fn.Name(), args[0])))
+}
+
+// fpAbs: is this float operation replaced by an arbitrary result here? (//vf:fpabstract, except inside the
+// functions named by //vf:fpexactin, whose own instructions keep the exact IEEE semantics)
+func (p *Path) fpAbs(fr *frame, op string) bool {
+	if !p.cfg.FPAbstract[op] {
+		return false
+	}
+	if fr != nil && fr.fn != nil {
+		for _, n := range p.cfg.FPExactIn {
+			if fr.fn.Name() == n {
+				return false
+			}
+		}
+	}
+	return true
 }
